@@ -13,7 +13,7 @@
 -/
 import EnvVerif.Lemmas.WalkLemmas
 namespace EnvVerif
-open Env
+open Env AW
 
 /-! ### equivalence -/
 
@@ -63,7 +63,7 @@ theorem identical_of_tokens (h : Hash) (a b : Env) (hd : a.digest = b.digest)
 /-- identity is preserved by encoding and decoding: with the round trip of C05
 (`decode h (encode e) = .ok e` for `Inv h e`, proved there) the decoded envelope is
 identical to the original -/
-theorem decode_encode_identical (h : Hash) (e e' : Env) (hrt : decode h (encode e) = .ok e)
+theorem identical_decode_encode (h : Hash) (e e' : Env) (hrt : decode h (encode e) = .ok e)
     (hdec : decode h (encode e) = .ok e') : isIdenticalTo h e e' = true := by
   rw [hrt] at hdec
   injection hdec with hdec
@@ -72,11 +72,11 @@ theorem decode_encode_identical (h : Hash) (e e' : Env) (hrt : decode h (encode 
 
 /-! ### unique decodability of the image -/
 
-theorem digest_bytes_length (d : Digest) : d.bytes.length = 32 := Digest.bytes_length d
+theorem digest_bytes_length (d : Digest) : d.bytes.length = 32 := bytes_length32 d
 
 /-- 256-bit digests are determined by their 32 bytes -/
 theorem digest_bytes_injective (d1 d2 : Digest) (h1 : d1.Valid) (h2 : d2.Valid)
-    (hb : d1.bytes = d2.bytes) : d1 = d2 := Digest.bytes_inj h1 h2 hb
+    (hb : d1.bytes = d2.bytes) : d1 = d2 := digestBytes_inj h1 h2 hb
 
 /-- If no *non-obscured* walked element of either envelope has a digest whose first byte is
 0, 1 or 2, equal images have equal tokens (digests compared as 32-byte strings). -/
@@ -199,7 +199,7 @@ theorem elideSet_no_hit_unchanged (h : Hash) (A : Aead) (Z : Deflate) (T : Diges
 /-! ### the hypotheses are satisfiable -/
 
 section Examples
-open Toy
+open AW.Toy
 
 /-- `image_injective`, `identical_iff_tokens`: digests with first byte 3 -/
 example : PlainHeadsOk exHi ∧ DigestsValid exHi ∧ (elements exHi).length = 4 := exHi_ok
@@ -215,13 +215,23 @@ example : exHi.isObscured = false ∧
   revert hh
   rw [structuralImage_eq_tokens, structuralImage_eq_tokens]
   simp [hLen, tokens, exHi, walkStructure, elide, newElided, tokenBytes, tok, disc,
-    Digest.bytes_length]
+    bytes_length32]
 
 /-- `elideSet_equivalent_tokens_ne`, `elideSet_equivalent_not_identical`: eliding the
 assertion `exA1` of `exNode` -/
 example : Inv hLen exNode ∧ exA1 ∈ elements exNode ∧ exA1.isElided = false := by
   refine ⟨exNode_inv, ?_, rfl⟩
   simp [exNode, nodeOf, elements, elementsList, exA1, newAssertion]
+/-- `elideSet_equivalent_not_identical`: all hypotheses together, for a hash whose digests
+start with byte 3: a wrapped leaf whose leaf is elided -/
+example (A : Aead) (Z : Deflate) :
+    Inv hHi exW ∧ newLeaf hHi (.uint 1) ∈ elements exW ∧
+    (elideSet hHi A Z (fun d => d == (newLeaf hHi (.uint 1)).digest) false .elide exW = .ok exWr) ∧
+    PlainHeadsOk exW ∧ PlainHeadsOk exWr ∧
+    (hHi.H (structuralImage exW) = hHi.H (structuralImage exWr) →
+      structuralImage exW = structuralImage exWr) :=
+  ⟨exW_inv, by simp only [exW, newWrapped, elements, List.mem_cons]; exact Or.inr (mem_elements_self _),
+    exW_elide A Z, exW_heads.1, exW_heads.2, exW_sep⟩
 end Examples
 
 end EnvVerif
